@@ -60,11 +60,41 @@ def gen_cases(rng, tier):
             if t[0] == 't' and rng.random() < 0.6:
                 h += ['t%d' % rng.choice([1, 40, 400]), 'q']
         cases.append(dict(sub, id='c07-dyn-%d' % i, hist=h, tags={'kind': 'dynamic-macro'}))
+    # what a macro still owes when its event list is exhausted: the release of its last press/release items (custom actions:
+    # mouse buttons, unmod keys) one tick each after the list has run out
+    extra_pairs = []
+    for i in range(40 if tier == 'quick' else 800):
+        body = rng.choice(['mlft mrgt', 'x mlft mrgt', '(unmod a) mlft', 'mlft (unmod b) mmid', 'S-(x) mlft mrgt', 'x 20 mlft mrgt mmid',
+                           'mlft', 'x y mmid', '(unshift c) (unmod d)', 'S-(mlft mrgt)'])
+        kind = rng.choice(['macro', 'macro', 'macro-release-cancel', 'macro-cancel-on-press'])
+        cfg = '(defsrc a s d)\n(deflayer l0 (%s %s) y (%s %s))' % (kind, body, rng.choice(['macro', 'macro-release-cancel']),
+                                                                  rng.choice(['mrgt mlft', 'z mmid mlft', '(unmod e) (unmod f)']))
+        k0 = rng.choice([30, 32])
+        h = ['d%d' % k0, 't1', 'q'] + (['u%d' % k0] if rng.random() < 0.5 else []) + ['t1', 'q'] * rng.randint(6, 14)
+        h += ['t%d' % rng.choice([40, 300, 1200]), 'q'] + ([] if ('u%d' % k0) in h else ['u%d' % k0])
+        h += ['t%d' % rng.choice([5, 300]), 'q', 'd31', 't5', 'u31', 't50', 'q']
+        c = {'id': 'c07-mtail-%d' % i, 'cfg': cfg, 'hist': h, 'sub': 'ksim', 'tags': {'kind': 'macro-tail'}}
+        cases.append(c); extra_pairs.append(c)
+    # a partly typed sequence must time out while nothing else happens (leader-started and sequence-always-on)
+    for i in range(40 if tier == 'quick' else 800):
+        T = rng.choice([30, 200])
+        always = rng.random() < 0.6
+        mode = rng.choice(['hidden-suppressed', 'hidden-delay-type', 'visible-backspaced'])
+        cfg = ('(defcfg sequence-timeout %d sequence-input-mode %s%s)\n(defsrc a s d f)\n(deflayer l0 %s s d f)\n'
+               '(defvirtualkeys v0 (macro x y))\n(defseq v0 (s d))' % (T, mode, ' sequence-always-on yes' if always else '', 'a' if always else 'sldr'))
+        h = ['t5']
+        if not always:
+            h += ['d30', 't2', 'u30', 't%d' % rng.choice([2, T - 1, T, T + 1, T + 400]), 'q']
+        gap = rng.choice([3, T - 3, T - 1, T, T + 1, T + 50, 1000])
+        h += ['d31', 't2', 'u31', 't%d' % gap, 'q', 'd32', 't2', 'u32', 't%d' % rng.choice([5, T + 50]), 'q', 'd33', 't2', 'u33', 't%d' % (T + 60), 'q']
+        c = {'id': 'c07-seqto-%d' % i, 'cfg': cfg, 'hist': h, 'sub': 'ksim', 'tags': {'kind': 'sequence-timeout', 'always_on': always, 'gap': gap - T}}
+        cases.append(c); extra_pairs.append(c)
     # the processing loop itself: before every millisecond the loop asks can_block_update_idle_waiting; a run that honours the
     # answer (B1: blocked milliseconds run no tick) must be indistinguishable from one that ticks regardless (B0)
     import checks.c08 as c08
     base = [c for c in cases if c['tags'].get('kind') == 'all-profile'][:(60 if tier == 'quick' else 1500)]
     base += [c for c in c08.gen_cases(rng, 'quick') if c.get('sub') == 'ksim'][:(60 if tier == 'quick' else 160)]
+    base += extra_pairs
     for c in base:
         h = [t for t in c['hist'] if t != 'q']
         for mode in ('0', '1'):
